@@ -1,6 +1,7 @@
 """
 This module contains the incremental SAGE explainer.
 """
+import copy
 from typing import Callable, Any, Union, Dict, Sequence, Optional
 
 import numpy as np
@@ -128,11 +129,12 @@ class IncrementalSage(BaseIncrementalFeatureImportance):
                                  for i in np.random.permutation(len(self.feature_names))]
             y_i_pred = self._model_function(x_i)
             model_loss = self._loss_function(y_i, y_i_pred)
-            self._model_loss_tracker.update(model_loss)
-            self._marginal_prediction_tracker.update(y_i_pred)
-            self.marginal_prediction = self._marginal_prediction_tracker.get_normalized()
-            sample_loss = self._loss_function(y_i, self.marginal_prediction)
-            self._marginal_loss_tracker.update(sample_loss)
+            # the estimates are only committed after all callbacks (model, loss, imputer) returned
+            marginal_prediction_tracker = copy.deepcopy(self._marginal_prediction_tracker)
+            marginal_prediction_tracker.update(y_i_pred)
+            marginal_prediction = marginal_prediction_tracker.get_normalized()
+            marginal_loss = self._loss_function(y_i, marginal_prediction)
+            sample_loss = marginal_loss
             features_not_in_s = set(self.feature_names)
             marginal_contributions = {}
             for feature in permutation_chain:
@@ -147,6 +149,10 @@ class IncrementalSage(BaseIncrementalFeatureImportance):
                 marginal_contribution = sample_loss - feature_loss
                 sample_loss = feature_loss
                 marginal_contributions[feature] = marginal_contribution
+            self._model_loss_tracker.update(model_loss)
+            self._marginal_prediction_tracker = marginal_prediction_tracker
+            self.marginal_prediction = marginal_prediction
+            self._marginal_loss_tracker.update(marginal_loss)
             self._importance_trackers.update(marginal_contributions)
             variances = {
                 feature: (marginal_contributions[feature] - self.importance_values[feature])**2
